@@ -456,7 +456,10 @@ def polar(
         **kwargs,
     )
     return PolarHistogram.from_calculate_frequencies(
-        data, binnings=bin_schemas, weights=weights, **kwargs
+        data,
+        binnings=bin_schemas,
+        weights=extract_weights(weights, array_mask=array_mask),
+        **kwargs,
     )
 
 
@@ -483,7 +486,7 @@ def azimuthal(
             [np.asarray(xdata)[:, np.newaxis], np.asarray(ydata)[:, np.newaxis]], axis=1
         )
     data, array_mask = extract_transformed_data(
-        data, transformed=False, klass=AzimuthalHistogram, dropna=dropna
+        data, transformed=transformed, klass=AzimuthalHistogram, dropna=dropna
     )
     if isinstance(bins, int):
         bins = np.linspace(*range, bins + 1)
@@ -491,7 +494,9 @@ def azimuthal(
         data, bins, range=range, check_nan=not dropna, **kwargs
     )
     return AzimuthalHistogram.from_calculate_frequencies(
-        data=data, binning=bin_schema, weights=weights
+        data=data,
+        binning=bin_schema,
+        weights=extract_weights(weights, array_mask=array_mask),
     )
 
 
@@ -596,7 +601,9 @@ def spherical(
     #     raise
 
     return SphericalHistogram.from_calculate_frequencies(
-        transformed_array, binnings=bin_schemas, weights=weights
+        transformed_array,
+        binnings=bin_schemas,
+        weights=extract_weights(weights, array_mask=array_mask),
     )
 
 
